@@ -24,7 +24,7 @@ static inline bool nstring_ne_cstr(const nstring *a, const char *lit)
 { __CPROVER_assert(lit[0] == 'n' && lit[1] == 'o' && lit[2] == 'n' && lit[3] == 'e' && lit[4] == 0, "only the literal \"none\" is modelled"); return a->id != 1; }
 static inline bool isScalable(const nstring *a, const nstring *b)
 { __CPROVER_assert(a->id >= 0 && a->id < NSTR_IDS && b->id >= 0 && b->id < NSTR_IDS, "string ids in range"); return gh_scal[a->id][b->id]; }
-static inline vec_nstr getDimensionsUnits(const DataArray *darray)
+static inline vec_nstr getDimensionsUnits_list(const DataArray *darray)
 { vec_nstr v; v.data = (nstring *)darray->du; v.n = darray->du_n; return v; }
 #define NSTR_OK(s) ((s).id >= 0 && (s).id < NSTR_IDS)
 #define TU(j) (self->units.data[j])
